@@ -17,6 +17,104 @@ NOTE = ("Trusted base: CPython ast; oslo.db enginefacade scope joining and "
         "necessary conditions of the behavioural property, not the behaviour.")
 
 CLAIMED = {
+    'C02': dict(
+        text="Three structural clauses: (1) the SQL candidate filter, the "
+             "post-merge filter and the write-time check normalise to the "
+             "same predicate (sibling cross-check in polynomial normal "
+             "form), so the search accepts only what the write accepts; (2) "
+             "merged amounts are added only into objects the merge owns "
+             "(path-sensitive enumeration of copy_arr_if_needed's return "
+             "paths, alias/mutation site table); (3) for all 30 versions "
+             ">= 1.10 the keys emitted for an allocation request are "
+             "accepted by the PUT schema dispatched at that version. "
+             "Existence of providers and summary values are not decided.",
+        ref='3/C02', technique='normal-form predicate comparison, path '
+                               'condition enumeration, per-version abstract '
+                               'evaluation of emitter and schema tables'),
+    'C07': dict(
+        text="Composite necessary condition only: one allocation write = "
+             "one writer scope holding capacity check on committed usage -> "
+             "inserts -> CAS of every checked provider -> CAS of every "
+             "visited consumer on every path; bounded retry that catches "
+             "only the provider conflict and re-raises; cleanup of created "
+             "consumers; generation increments in the scope of every "
+             "inventory/trait/aggregate change. Serializability over "
+             "schedules itself is not decided.",
+        ref='3/C07', technique='CFG dominance and must-pass queries over the '
+                               'write path, exception-handler shape checks'),
+    'C09': dict(
+        text="Guards only: unknown parent, self-parent, parent inside own "
+             "subtree and ungated re-/un-parenting each raise on every path "
+             "before the parent link is stored; stored roots are the "
+             "parent's root / own id and the same value is written to the "
+             "whole get_subtree(); the re-parent flag is bound to the 1.37 "
+             "gate; parents are not deleted; status mapping. The forest "
+             "invariant over histories is not decided.",
+        ref='3/C09', technique='guard dominance on CFG with reaching '
+                               'definitions, gate-bound flag tracing'),
+    'C12': dict(
+        text="Closed who-may-insert/delete table for consumers; the write "
+             "ends with removal of consumers left without allocations on "
+             "every path; consumers created by a request are either given "
+             "an Allocation or removed (bypass-path analysis); placeholders, "
+             "type gate and in-transaction attribute update.",
+        ref='3/C12', technique='effect tables, must-pass on CFG, bypass path '
+                               'query, constant-folded configuration'),
+    'C13': dict(
+        text="Writer/reader key agreement between schema, handler and query "
+             "builder; a table-driven check that each of the eight filters "
+             "reaches query.where() or an early empty return with the "
+             "expected column, helper and polarity; capacity predicate "
+             "sibling check; unknown names -> 400. The helpers' SQL joins "
+             "are not decided.",
+        ref='3/C13', technique='constant-key dataflow between sibling '
+                               'tables, clause-shape matching, CFG '
+                               'dominance'),
+    'C15': dict(
+        text="Inter-procedural may-raise over all 42 handler definitions "
+             "(nothing but webob errors / NotFound / PolicyNotAuthorized "
+             "escapes, every other origin is in a reasoned infeasibility "
+             "table); every conversion of request data is guarded or "
+             "validated on the same occurrence; req.GET first touched under "
+             "the 400 conversion; JSON formatter wiring; validation "
+             "dominates writes; two-sided integer bounds before SQL.",
+        ref='3/C15', technique='exception escape analysis over the call '
+                               'graph, CFG dominance, source-to-sink '
+                               'conversion site enumeration'),
+    'C17': dict(
+        text="Retry decorators: closed table, argument values, position "
+             "outside the writer decorator; no catch-all or DB-error handler "
+             "in the service drops an error outside a reasoned table; "
+             "FaultWrapper innermost and JSON-formatting; every write inside "
+             "a writer scope. Exactly-once under injected faults is not "
+             "decided (fault-sequence property).",
+        ref='3/C17', technique='decorator-order and argument checks, '
+                               'handler-swallow analysis on CFGs, '
+                               'who-may-write scopes'),
+    'C18': dict(
+        text="Given enginefacade scope joining (trusted), a crash leaves all "
+             "or none of one transaction root: per handler at most one root "
+             "writes invariant-bearing tables and every other root writes "
+             "only the auxiliary records the property allows.",
+        ref='3/C18', technique='transaction-root reachability over SQL '
+                               'effects and the call graph'),
+    'C19': dict(
+        text="Regex-language inclusion of the CUSTOM_ patterns (parsed with "
+             "re._parser, anchoring incl. \\Z vs $), maxLength, validation "
+             "dominates create with the validated value, standard-id/prefix "
+             "guards dominate delete/rename, next id >= 10000 on all paths, "
+             "collision handling, start-up sync wiring and set-difference "
+             "inserts.",
+        ref='3/C19', technique='regular-language facts from the regex AST, '
+                               'guard dominance, return-path analysis'),
+    'C20': dict(
+        text="Provenance of the limited list (parameter, slice or "
+             "random.sample of it bounded by limit, under the stated "
+             "guard), random.* only under the config flag, merge -> exclude "
+             "-> limit order with unchanged return, summaries pruned by the "
+             "kept requests' roots.",
+        ref='3/C20', technique='assignment provenance, control dependence, '
+                               'call-order dominance'),
     'C01': dict(
         text="Decides the structural clauses of capacity safety: who may "
              "write allocations; delete -> capacity check -> insert order on "
